@@ -60,15 +60,20 @@ def relation_itself(rep):
            ("bool:false", lit(vbool(False))), ("builtin:len", ident("len")), ("arr:[1]", arr(I(1))),
            ("arr:[1.0]", arr(lit(vfloat(1.0)))), ("arr:[byte1]", arr(call("byte", I(1)))), ("arr:[[0]]", arr(arr(I(0)))),
            ("arr:[[0.0]]", arr(arr(lit(vfloat(0.0))))), ("arr:[]", arr()), ("arr:[65,'A']", arr(I(65), lit(vchar("A")))),
-           ("arr:[A65]", arr(lit(vbyte(65)), lit(vchar("A"))))]
+           ("arr:[A65]", arr(lit(vbyte(65)), lit(vchar("A")))),
+           ("float:nan", lit(vfloat("nan"))), ("arr:[nan]", arr(lit(vfloat("nan")))), ("arr:[[nan],1]", arr(arr(lit(vfloat("nan"))), I(1)))]
     items = []
+
+    def history(a, b):
+        return [OBS_DECL, let("k1", a), let("k2", b), let("m", map_()), expr(asg(idx(ident("m"), ident("k1")), I(1))),
+                obs(bin_("==", ident("k1"), ident("k2"))), obs(call("contains", ident("m"), ident("k2"))),
+                obs(call("insert", ident("m"), ident("k2"), I(2))), obs(call("len", ident("m"))),
+                obs(call("get", ident("m"), ident("k1"))), obs(idx(ident("m"), ident("k2")))]
     for ta, a in dom:
         for tb, b in dom:
-            prog = [OBS_DECL, let("k1", a), let("k2", b), let("m", map_()), expr(asg(idx(ident("m"), ident("k1")), I(1))),
-                    obs(bin_("==", ident("k1"), ident("k2"))), obs(call("contains", ident("m"), ident("k2"))),
-                    obs(call("insert", ident("m"), ident("k2"), I(2))), obs(call("len", ident("m"))),
-                    obs(call("get", ident("m"), ident("k1"))), obs(idx(ident("m"), ident("k2")))]
-            items.append({"id": "%s|%s" % (ta, tb), "prog": prog, "ta": ta, "tb": tb})
+            items.append({"id": "%s|%s" % (ta, tb), "prog": history(a, b), "ta": ta, "tb": tb})
+        # the same value object under both names (k2 = k1): still "the same entry exactly when k1 == k2"
+        items.append({"id": "%s|same-object" % ta, "prog": history(a, ident("k1")), "ta": ta, "tb": "same-object:" + ta})
     from ..past import render
     for it in items:
         it["src"], _ = render(it["prog"])
@@ -94,10 +99,46 @@ def relation_itself(rep):
     rep.cov["evaluations"] += len(recs)
     for it in items:
         if verdicts[it["id"]]["v"] == "bad":
-            rep.disagree("map-vs-equality %s %s" % (kind(it["ta"]), kind(it["tb"])),
+            rep.disagree("map-vs-equality %s %s" % (kind(it["ta"]) if not it["tb"].startswith("same-object") else it["ta"], kind(it["tb"])),
                          {"src": it["src"], "keys": [it["ta"], it["tb"]], "observed": [r for r in recs if r["id"] == it["id"]][0]["obs"],
                           "how": it["raw"].get("how"), "msg": it["raw"].get("msg")})
     return len(items)
+
+
+def replacements():
+    """a write under an equal key replaces the stored value even when the new value equals the old one: the two can
+    still be told apart (1 and 1.0 under division, 0.0 and -0.0 under 1/x, two arrays with equal contents once one of
+    them is changed)"""
+    from ..past import vnull
+    keys = {"int": I(7), "str": lit(vstr("k")), "arr": arr(I(1)), "float-for-int": None}
+    out = []
+    pairs = {
+        "int-then-float": (I(1), lit(vfloat(1.0)), lambda e: bin_("/", e, I(2))),
+        "float-then-int": (lit(vfloat(1.0)), I(1), lambda e: bin_("/", e, I(2))),
+        "zero-then-negzero": (lit(vfloat(0.0)), lit(vfloat("nzero")), lambda e: bin_("/", I(1), e)),
+        "negzero-then-zero": (lit(vfloat("nzero")), lit(vfloat(0.0)), lambda e: bin_("/", I(1), e)),
+        "byte-then-int": (lit(vbyte(200)), I(200), lambda e: bin_("+", e, I(100))),
+    }
+    ways = {"index": lambda k, v: expr(asg(idx(ident("m"), k), v)), "insert": lambda k, v: expr(call("insert", ident("m"), k, v))}
+    for kn in ("int", "str", "arr", "float-for-int"):
+        for pn, (v1, v2, probe) in pairs.items():
+            for w1n, w1 in ways.items():
+                for w2n, w2 in ways.items():
+                    k1 = keys[kn] if kn != "float-for-int" else I(7)
+                    k2 = keys[kn] if kn != "float-for-int" else lit(vfloat(7.0))
+                    prog = [OBS_DECL, let("m", map_()), w1(k1, v1), w2(k2, v2), obs(probe(idx(ident("m"), k1))),
+                            obs(probe(call("get", ident("m"), k2))), obs(call("len", ident("m")))]
+                    out.append(("replace %s %s %s/%s" % (kn, pn, w1n, w2n), prog))
+        for w1n, w1 in ways.items():
+            for w2n, w2 in ways.items():
+                for changed in ("second", "first"):
+                    k1 = keys[kn] if kn != "float-for-int" else I(7)
+                    k2 = keys[kn] if kn != "float-for-int" else lit(vfloat(7.0))
+                    prog = [OBS_DECL, let("m", map_()), let("a", arr(I(1))), let("b", arr(I(1))), w1(k1, ident("a")), w2(k2, ident("b")),
+                            expr(call("push", ident("b" if changed == "second" else "a"), I(2))), obs(idx(ident("m"), k1)),
+                            obs(call("len", call("get", ident("m"), k2))), obs(call("len", ident("m")))]
+                    out.append(("replace %s equal-arrays-%s-changed %s/%s" % (kn, changed, w1n, w2n), prog))
+    return out
 
 
 def run(rep, tier, seed):
@@ -110,6 +151,10 @@ def run(rep, tier, seed):
     for i in range(nrand):
         items.append({"id": 10000000 + i, "prog": rand_history(rnd, rnd.randint(5, 30)), "w1": "rand", "k1": "rand:",
                       "w2": "", "k2": "rand:", "k3": "rand:"})
+    for k, (tag, prog) in enumerate(replacements()):
+        parts = tag.split(" ")
+        items.append({"id": 20000000 + k, "prog": prog, "w1": parts[3].split("/")[0], "k1": parts[1] + ":", "w2": parts[3].split("/")[1],
+                      "k2": parts[2] + ":", "k3": "replaced:"})
     bad, verdicts = progs.run_and_validate(rep, items, chk=())
     nrel = relation_itself(rep)
     rep.cov["distinct_nontrivial"] = len({(it["w1"], it["k1"], it["w2"], it["k2"], it["k3"]) for it in items
